@@ -415,6 +415,74 @@ pub fn pause_histories(tier: &str, r: &mut Report) {
     r.merge(total);
 }
 
+/// Validate-then-reissue histories: on ONE thread, builds alternate with PARSES of one and the same token (and of the token just
+/// built) at the same layer.  Whatever a parse feeds into the thread's state, the builds that follow must still carry fresh nonces.
+pub fn reissue_histories(tier: &str, r: &mut Report) {
+    let key = KeyMat::sym(*b"wubbalubbadubdubwubbalubbadubdub");
+    let rounds = if tier == "thorough" { 3000 } else { 300 };
+    for &p in &LOCALS {
+        for layer in [Layer::Generic, Layer::Batteries] {
+            let tag = format!("{}/{}", p.name(), layer.name());
+            let c = Case { p, layer, reuse: false, n: 1, threads: 1, big: false };
+            let t0 = match build_many(&c, &key, 1).pop() {
+                Some(Out::Ok(t)) => t,
+                _ => {
+                    r.inconclusive.push(format!("{} reissue history: cannot build the token to be presented", tag));
+                    continue;
+                }
+            };
+            let cfg = ParserCfg { footer: Some("ftr".into()), assertion: if p.has_assertion() { Some("ia".into()) } else { None }, ..Default::default() };
+            let open = |tok: &str| {
+                if layer == Layer::Generic {
+                    let _ = generic_open(p, &key, tok, &cfg);
+                } else {
+                    let _ = batteries_open(p, &key, tok, &cfg);
+                }
+            };
+            let nl = p.nonce_len();
+            let mut seen: std::collections::HashMap<Vec<u8>, usize> = std::collections::HashMap::new();
+            let mut nonces: Vec<Vec<u8>> = Vec::new();
+            let mut hit = None;
+            for i in 0..rounds {
+                // the same token before every build; every third round also the token built in the round before
+                open(&t0);
+                if let Some(Out::Ok(t)) = build_many(&c, &key, 1).pop() {
+                    r.evaluations += 1;
+                    if i % 3 == 2 {
+                        open(&t);
+                    }
+                    if let Some(pt) = crate::c03::parts(p, &t) {
+                        if pt.payload.len() >= nl {
+                            let n = pt.payload[..nl].to_vec();
+                            if let Some(prev) = seen.insert(n.clone(), i) {
+                                hit.get_or_insert((prev, i, util::hex(&n)));
+                            }
+                            nonces.push(n);
+                        }
+                    }
+                }
+            }
+            let _ = vlog_take();
+            if nonces.len() < rounds / 2 {
+                r.inconclusive.push(format!("{} reissue history: only {} tokens built", tag, nonces.len()));
+                continue;
+            }
+            match hit {
+                Some((i0, i1, n)) => r.violation(
+                    format!("C10 nonce-repeated-in-a-validate-then-reissue-history {}", tag),
+                    format!("{}: on one thread, builds alternating with parses of one and the same token: build #{} and build #{} carry the same nonce {}", tag, i0 + 1, i1 + 1, n),
+                    json!({"cmd": "C10", "note": "reissue history: re-run the check", "protocol": p.name()}),
+                ),
+                None => {
+                    r.count(&format!("{} validate-then-reissue history all-distinct", tag));
+                    r.distinct(format!("{}|reissue|{}", tag, rounds));
+                }
+            }
+            register_nonces(p, &format!("{} reissue", tag), &nonces, r);
+        }
+    }
+}
+
 pub fn cases(tier: &str) -> Vec<Case> {
     let thorough = tier == "thorough";
     let mut v = Vec::new();
@@ -449,6 +517,7 @@ pub fn run(tier: &str, _seed: u64) -> Report {
         run_case(&c, &mut r);
     }
     rng_fault(&mut r);
+    reissue_histories(tier, &mut r);
     pause_histories(tier, &mut r);
     for &p in &LOCALS {
         for l in ["generic", "batteries"] {
@@ -457,6 +526,7 @@ pub fn run(tier: &str, _seed: u64) -> Report {
             }
             r.require(&format!("{}/{} rng-fault: no nonce repeated", p.name(), l), 1);
             r.require(&format!("{}/{} idle-pause history all-distinct", p.name(), l), 1);
+            r.require(&format!("{}/{} validate-then-reissue history all-distinct", p.name(), l), 1);
         }
     }
     r
@@ -471,4 +541,4 @@ pub fn replay(case: &Value) -> Report {
     r
 }
 
-pub const RULE: &str = "one case = a history of N builds (quick N=4096 on one thread, N=1024 with a LARGE identical payload (3 kB claim, 1.5 kB footer), N=70000 from ONE builder object and N=8192 minted concurrently by 8 threads; thorough additionally N=102400 and N=1200000 from 16 threads, i.e. 75000 builds per builder object) under one key with IDENTICAL claims, footer and assertion, for v1-v4 local x {GenericBuilder, PasetoBuilder with exp/iat/nbf pinned} x {fresh builder per build, one builder reused}; the nonce field of every token is extracted (32 bytes, v2: 24). Monitors: pairwise-distinct nonces and tokens within a history AND across all histories of the process (about 190 000 nonces per protocol in the quick tier, millions in the thorough tier: a nonce source with a 32-bit state space collides by the birthday bound), per-bit one-frequency within N/2 +- 5.3*sqrt(N), no constant byte position; the whole run is executed in two separate processes and the first 64 nonces of every history are compared across processes (fixed-seed PRNG). Idle-pause histories: three bursts of builds on ONE thread (fresh builders, a reused one and a batteries-included builder kept across the pauses) separated by 1.3 s (thorough also 3.1, 11 and 31 s) of idle time: no nonce may recur across a pause. Fault injection through the hook verif::set_rng_fault: while the system RNG fails, 16 builds under identical inputs must either fail or carry pairwise distinct nonces (a fallback to a stale/default/input-derived nonce repeats), and builds must succeed again with distinct tokens once the fault is cleared. distinct_nontrivial = distinct (version, layer, builder mode, N, threads) histories that built >= 1000 tokens";
+pub const RULE: &str = "one case = a history of N builds (quick N=4096 on one thread, N=1024 with a LARGE identical payload (3 kB claim, 1.5 kB footer), N=70000 from ONE builder object and N=8192 minted concurrently by 8 threads; thorough additionally N=102400 and N=1200000 from 16 threads, i.e. 75000 builds per builder object) under one key with IDENTICAL claims, footer and assertion, for v1-v4 local x {GenericBuilder, PasetoBuilder with exp/iat/nbf pinned} x {fresh builder per build, one builder reused}; the nonce field of every token is extracted (32 bytes, v2: 24). Monitors: pairwise-distinct nonces and tokens within a history AND across all histories of the process (about 190 000 nonces per protocol in the quick tier, millions in the thorough tier: a nonce source with a 32-bit state space collides by the birthday bound), per-bit one-frequency within N/2 +- 5.3*sqrt(N), no constant byte position; the whole run is executed in two separate processes and the first 64 nonces of every history are compared across processes (fixed-seed PRNG). Idle-pause histories: three bursts of builds on ONE thread (fresh builders, a reused one and a batteries-included builder kept across the pauses) separated by 1.3 s (thorough also 3.1, 11 and 31 s) of idle time: no nonce may recur across a pause. Validate-then-reissue histories: on one thread 300 (thorough 3000) builds alternate with parses of one and the same token (and of the token just built) at the same layer: no nonce may repeat. Fault injection through the hook verif::set_rng_fault: while the system RNG fails, 16 builds under identical inputs must either fail or carry pairwise distinct nonces (a fallback to a stale/default/input-derived nonce repeats), and builds must succeed again with distinct tokens once the fault is cleared. distinct_nontrivial = distinct (version, layer, builder mode, N, threads) histories that built >= 1000 tokens";
